@@ -654,6 +654,10 @@ def shard(arg):
         if rng.random() < 0.1:
             o['depth'] = 5
             o['width'] = 3
+        if i % 8 == 3:
+            # xmlns:xml="http://www.w3.org/XML/1998/namespace" on some elements (inside `nsDeclOK` since the
+            # hypothesis was weakened; the flattener must drop the declaration and keep `xml:` usable)
+            o['xml_prefix_decl'] = 0.25
         doc = gen_xml.gen_doc(rng, **o)
         text = gen_xml.write_doc(doc)
         case = {'kind': 'doc', 'text': text}
